@@ -1141,7 +1141,19 @@ def resolve_cnamedtuple_fieldnames(value):
     # https://github.com/python/cpython/blob/53b9e1a1c1d86187ad6fbee492b697ef8be74205/Objects/structseq.c#L168-L241
     # As long as the repr is implemented like that, we can count
     # on this function to work.
-    expr_node = ast.parse(repr(value), mode='eval')
+    #
+    # The field names belong to the class: read them off a prototype
+    # instance holding plain ints, so that the result (which is cached per
+    # class) does not depend on the reprs of the elements of ``value``.
+    cls = type(value)
+    try:
+        prototype = cls(range(cls.n_sequence_fields))
+    except Exception:
+        # Some struct sequence types cannot be instantiated,
+        # e.g. sys.version_info.
+        prototype = value
+
+    expr_node = ast.parse(repr(prototype), mode='eval')
     call_node = expr_node.body
     return tuple(
         keyword_node.arg
